@@ -75,7 +75,7 @@ def long_call_size():
     return _LONG_CALL_SIZE[0]
 
 
-def student_files(prog, entry):
+def student_files(prog, entry, late=None):
     body = PROGRAMS.get(prog, BLOCK_FOREVER)
     if 'LONG_CALL_SIZE' in body:
         body = body.replace('LONG_CALL_SIZE', str(long_call_size()))
@@ -86,6 +86,11 @@ def student_files(prog, entry):
         ind = '\n'.join(('    ' + l) if l else l for l in body.rstrip('\n').split('\n'))
         return {'answer.py': helpers + 'def slow():\n' + ind + '\n    return 1\n'}
     if entry == 'import':
+        if late:
+            # the other file is imported when most of the main file's own time is used up: the thread importing it has a limit
+            # of its own, counted from then, so that limit alone ends it long after the grader's has expired (seeded C14-19)
+            wait = 'import time\n_began = time.time()\nwhile time.time() - _began < %r:\n    pass\n' % late
+            return {'answer.py': helpers + wait + 'import helper\nprint("imported")\n', 'helper.py': body}
         return {'answer.py': helpers + 'import helper\nprint("imported")\n', 'helper.py': body}
     raise ValueError(entry)
 
@@ -358,7 +363,7 @@ def run_case(ctx, case):
     install_monitoring()
     settle(ctx)
     prog, entry, inter, allowed, nexts = case['program'], case['entry'], case['interleaving'], case['allowed_time'], case['next']
-    files = student_files(prog, entry)
+    files = student_files(prog, entry, late=case.get('import_after'))
     want_next = fresh_reference(files, nexts, case.get('history', 'fresh'))
     # (a grader that keeps each submission's report to herself: every command is then given that report)
     sandbox, report = sc.new_sandbox(files, case.get('tracer', 'none'), own_report=case.get('report') == 'own')
@@ -1039,7 +1044,7 @@ def public(case):
 def case_label(case):
     return '%s/%s/%s/%.2f/%s/%s/%s/%s%s' % (case['program'], case['entry'], case['interleaving'], case['allowed_time'], ','.join(case['next']),
                                              case.get('history', 'fresh'), case.get('threaded_via', 'argument'), case.get('tracer', 'none'),
-                                             '/own-report' if case.get('report') == 'own' else '')
+                                             ('/own-report' if case.get('report') == 'own' else '') + ('/late-import' if case.get('import_after') else ''))
 
 
 def all_cases(ctx):
@@ -1063,6 +1068,8 @@ def all_cases(ctx):
                     # nested student threads (Sandbox.threaded = True: the import of the helper file gets a thread and a limit of
                     # its own); the other named interleavings are defined for one student thread
                     cases.append({'program': prog, 'entry': entry, 'interleaving': inter, 'threaded_via': 'attribute'})
+                    if inter == 'unforced' and prog in ('print-loop', 'busy-loop', 'print-first-then-loop', 'nested-function-loop'):
+                        cases.append({'program': prog, 'entry': entry, 'interleaving': inter, 'threaded_via': 'attribute', 'late_import': True})
                     if inter == 'outer-interrupt-before-inner':
                         continue
                 cases.append({'program': prog, 'entry': entry, 'interleaving': inter})
@@ -1102,6 +1109,10 @@ def _run(ctx):
                 k = [rng.choice(['call-add', 'evaluate-expr'])] + [x for x in k if x not in ('call-add', 'evaluate-expr')][:2]
             case['next'] = k
             case['history'] = rng.choice(HISTORIES)
+            if c.get('late_import'):
+                case['allowed_time'] = rng.choice([0.3, 0.4])
+                case['import_after'] = round(case['allowed_time'] * 0.7, 3)
+                case['next'] = ['run-long'] + [x for x in k if x != 'run-long'][:2]
             # the environments switch the line tracer on by default: the interrupt then mostly lands inside the trace callback
             case['tracer'] = rng.choice(['none', 'native', 'native']) if c['interleaving'] in ('unforced', 'grader-first', 'zombie-after-next') else 'none'
             if c['entry'] == 'import' and c.get('threaded_via') != 'attribute' and c['interleaving'] == 'unforced' and rng.random() < 0.7 and \
